@@ -96,7 +96,7 @@ class World:
         self.tok = {t["name"]: TokenInfo(t["name"], t["dec"]) for t in case["tokens"]}
         self.par = {t["name"]: t for t in case["tokens"]}
         self.actions = []
-        self.broker = Broker(record_action_callback=self._on_action)
+        self.broker = Broker(allow_negative_balance=bool(case.get("allow_negative", False)), record_action_callback=self._on_action)
         self.market = AaveV3Market(MarketInfo("aave", MarketTypeEnum.aave_v3), risk_file(case["tokens"]), list(self.tok.values()))
         self.broker.add_market(self.market)
         for n, a in case["wallet"].items():
